@@ -359,6 +359,8 @@ def rule_api_agnostic(fx, col):
             t = b.term(bb)
             if t['k'] == 'switch' and t['discr']['k'] == 'const' and 'USE_FAST' in (t['discr']['c'].get('text') or ''):
                 users.append(b)
+            if t['k'] == 'call' and any(o['k'] == 'const' and 'USE_FAST' in (o['c'].get('text') or '') for o in t['args']):
+                users.append(b)   # handed to a function (`Cfg::USE_FAST.then(..)`)
     # a body that merely returns the constant (a `const fn uses_fast_slots()` getter: no call, no atomic) decides nothing
     getters = [u for u in users if not list(u.calls(include_cleanup=False))]
     users = [u for u in users if u not in getters]
